@@ -365,6 +365,15 @@ func FuzzVerifC03_SnifferUDPPlaintext(f *testing.F) {
 	f.Add([]byte{1, 0, 0, 2, 3, 3}, uint8(0))
 	f.Add([]byte{0x06, 0x00, 0x04, 1, 0, 0, 0}, uint8(2))
 	f.Add([]byte{0x06, 0x00, 0x05, 1, 0, 0, 1, 0, 0x06, 0x05, 0x01, 0}, uint8(3))
+	// CRYPTO[0,60) followed / preceded by a frame strictly inside it, nested, zero-length inside
+	hello := v03ClientHello([]v03Ext{v03SNIExt("example.com")}, 32, 3)
+	cf := func(off, n int) []byte {
+		return append(v03Varint(v03Varint([]byte{0x06}, uint64(off)), uint64(n)), hello[off:off+n]...)
+	}
+	f.Add(append(cf(0, len(hello)), cf(10, 5)...), uint8(2))
+	f.Add(append(cf(10, 5), cf(0, len(hello))...), uint8(2))
+	f.Add(append(append(cf(0, len(hello)), cf(5, 40)...), cf(12, 3)...), uint8(3))
+	f.Add(append(append(cf(0, len(hello)), cf(30, 0)...), cf(0, 0)...), uint8(2))
 	f.Fuzz(func(t *testing.T, content []byte, mode uint8) {
 		var pl []byte
 		if mode&2 == 0 {
